@@ -20,6 +20,85 @@ use crate::Lut;
 
 use super::Esop;
 
+/// Verification hook: the integer programme handed to the solver by the last optimizer call on
+/// this thread, as built: candidate terms, decision variables by role, variable domains,
+/// constraints and objective (in `good_lp`'s `Debug` rendering, variables named `v<index>`)
+#[cfg(volute_verif)]
+#[derive(Clone, Debug, Default)]
+pub struct VerifIlp {
+    /// "sop" (`SopModeler`) or "esop" (`EsopModeler`)
+    pub kind: &'static str,
+    /// Number of output functions
+    pub num_functions: usize,
+    /// Candidate cubes
+    pub cubes: Vec<Cube>,
+    /// Candidate exclusive cubes
+    pub ecubes: Vec<Ecube>,
+    /// `cube_used` followed by `ecube_used`
+    pub used: Vec<String>,
+    /// `cube_used_in_fn` followed by `ecube_used_in_fn`, one row per candidate
+    pub used_in_fn: Vec<Vec<String>>,
+    /// `num_or_in_fn` / `num_xor_in_fn`
+    pub num_join: Vec<String>,
+    /// Every variable of the problem: (name, is_integer, min, max)
+    pub variables: Vec<(String, bool, f64, f64)>,
+    /// Every constraint
+    pub constraints: Vec<String>,
+    /// The objective, minimised
+    pub objective: String,
+}
+
+#[cfg(volute_verif)]
+thread_local! {
+    static VERIF_ILP: std::cell::RefCell<Option<VerifIlp>> = const { std::cell::RefCell::new(None) };
+}
+
+/// Verification hook: see [`VerifIlp`]
+#[cfg(volute_verif)]
+pub fn verif_last_ilp() -> Option<VerifIlp> {
+    VERIF_ILP.with(|v| v.borrow().clone())
+}
+
+#[cfg(volute_verif)]
+fn verif_name(v: Variable) -> String {
+    format!("{:?}", Expression::from(v))
+}
+
+#[cfg(volute_verif)]
+#[allow(clippy::too_many_arguments)]
+fn verif_record(
+    kind: &'static str,
+    num_functions: usize,
+    cubes: &[Cube],
+    ecubes: &[Ecube],
+    used: Vec<Variable>,
+    used_in_fn: Vec<Vec<Variable>>,
+    num_join: &[Variable],
+    vars: &ProblemVariables,
+    constraints: &[Constraint],
+    objective: &Expression,
+) {
+    let ilp = VerifIlp {
+        kind,
+        num_functions,
+        cubes: cubes.to_vec(),
+        ecubes: ecubes.to_vec(),
+        used: used.into_iter().map(verif_name).collect(),
+        used_in_fn: used_in_fn
+            .into_iter()
+            .map(|r| r.into_iter().map(verif_name).collect())
+            .collect(),
+        num_join: num_join.iter().map(|v| verif_name(*v)).collect(),
+        variables: vars
+            .iter_variables_with_def()
+            .map(|(v, d)| (verif_name(v), d.is_integer(), d.get_min(), d.get_max()))
+            .collect(),
+        constraints: constraints.iter().map(|c| format!("{:?}", c)).collect(),
+        objective: format!("{:?}", objective),
+    };
+    VERIF_ILP.with(|v| *v.borrow_mut() = Some(ilp));
+}
+
 struct SopModeler<'a> {
     /// Functions of the problem
     functions: &'a [Lut],
@@ -207,6 +286,27 @@ impl<'a> SopModeler<'a> {
 
     /// Solve the problem
     fn solve(self) -> Vec<(Sop, Soes)> {
+        #[cfg(volute_verif)]
+        verif_record(
+            "sop",
+            self.functions.len(),
+            &self.cubes,
+            &self.ecubes,
+            self.cube_used
+                .iter()
+                .chain(self.ecube_used.iter())
+                .cloned()
+                .collect(),
+            self.cube_used_in_fn
+                .iter()
+                .chain(self.ecube_used_in_fn.iter())
+                .cloned()
+                .collect(),
+            &self.num_or_in_fn,
+            &self.vars,
+            &self.constraints,
+            &self.objective,
+        );
         let mut pb = self
             .vars
             .minimise(self.objective.clone())
@@ -448,6 +548,19 @@ impl<'a> EsopModeler<'a> {
 
     /// Solve the problem
     fn solve(self) -> Vec<Esop> {
+        #[cfg(volute_verif)]
+        verif_record(
+            "esop",
+            self.functions.len(),
+            &self.cubes,
+            &[],
+            self.cube_used.clone(),
+            self.cube_used_in_fn.clone(),
+            &self.num_xor_in_fn,
+            &self.vars,
+            &self.constraints,
+            &self.objective,
+        );
         let mut pb = self
             .vars
             .minimise(self.objective.clone())
